@@ -422,7 +422,7 @@ func ruleStatusReachesCache(c *Ctx) {
 
 func init() {
 	register("C19", "DR auto-sync only declares 'sync' when every region is in sync", func(c *Ctx) {
-		c.Group("C19/persist-before-serve", "a new status is offered to members and saved (same value) before it is served; its state id comes from a successful AllocID; the served status is otherwise only loaded or given progress numbers; accessed under the manager lock", func() { rulePersistBeforeServe(c); ruleTransitionIsOneCriticalSection(c) })
+		c.Group("C19/persist-before-serve", "a new status is offered to members and saved (same value) before it is served; its state id comes from a successful AllocID; the served status is otherwise only loaded or given progress numbers; accessed under the manager lock", func() { rulePersistBeforeServe(c); ruleTransitionIsOneCriticalSection(c); ruleMembersGetTheNewStatus(c) })
 		c.Group("C19/transition-guards", "tickDR: →async, async→sync_recover and sync_recover→sync are called only under their stated conditions; UpdateConfig rolls its config back when the switch fails", func() { ruleTransitionGuards(c); ruleFailedStoreCount(c) })
 		c.Group("C19/recovery", "entering sync_recover resets the cursor; the cursor advances only past contiguous regions reporting integrity under the current state id; progress 1.0 only after the whole key space", func() { ruleRecoveryAtoms(c); ruleStatusReachesCache(c) })
 	})
@@ -544,4 +544,38 @@ func instrReaches(a, b ssa.Instruction) bool {
 		work = append(work, x.Succs...)
 	}
 	return false
+}
+
+// ruleMembersGetTheNewStatus: what drPersistStatus sends to the members is the
+// status it was handed — the one about to be served — and not the one still
+// being served. The members' file is what a disaster-recovery read trusts.
+func ruleMembersGetTheNewStatus(c *Ctx) {
+	P := c.P
+	rule := c.Prop + "/persist-before-serve"
+	fn := P.Method(rep, "ModeManager", "drPersistStatus")
+	c.saw(fnName(fn))
+	dr := P.Field(rep, "ModeManager", "drAutoSync")
+	send := P.IMethod(rep, "FileReplicater", "ReplicateFileToAllMembers")
+	n := 0
+	for _, ci := range callsIn(fn, false, send) {
+		a := callArgs(ci.Common())
+		if len(a) == 0 {
+			continue
+		}
+		n++
+		data := a[len(a)-1]
+		fromParam, fromServed := false, false
+		for _, p := range fn.Params[1:] {
+			if derivesFrom(data, same(p), 8) {
+				fromParam = true
+			}
+		}
+		if derivesFrom(data, loadOfField(dr), 8) {
+			fromServed = true
+		}
+		c.Check(fromParam && !fromServed, rule, fmt.Sprintf("file sent to the members #%d in %s", n, fnName(fn)), "the marshalled status is the one handed in (about to be served), not the one still served", P.instrPos(ci.(ssa.Instruction)), fmt.Sprintf("derives from the parameter: %v, from m.drAutoSync: %v", fromParam, fromServed))
+	}
+	if n == 0 {
+		c.Undec(rule, "ReplicateFileToAllMembers in "+fnName(fn), "found", P.pos(fn.Pos()), "")
+	}
 }
